@@ -130,6 +130,8 @@ def verify_case(case, repo=None, summaries_lib=None, seed=0, scope=None):
     summaries_lib = summaries_lib or {"summaries": {}, "loops": {}}
     res = CaseResult(case.name)
     t0 = time.time()
+    if getattr(case, "static", None) is not None:
+        return verify_static(case, repo, res, t0)
     if getattr(case, "ground", None) is not None:
         return verify_ground(case, repo, summaries_lib, res, t0)
     try:
@@ -370,6 +372,45 @@ def verify_ground(case, repo, summaries_lib, res, t0):
         res.files = repo.hashes()
     except Unsupported as ex:
         res.error = "unsupported: " + str(ex)
+    except Exception as ex:
+        res.error = "crash: " + "".join(traceback.format_exception(type(ex), ex, ex.__traceback__))[-3000:]
+    res.seconds = time.time() - t0
+    return res
+
+
+def verify_static(case, repo, res, t0):
+    """frame / kind / order / identity obligations decided by the static back end (pyvc.static) on the real AST."""
+    from .static import analyse, public_methods
+    try:
+        spec = case.static
+        targets = []
+        for cq in spec["classes"]:
+            targets += public_methods(repo, [cq])
+        for q in spec.get("functions", ()):
+            targets.append(q)
+        kinds = spec.get("kinds")
+        out = analyse(repo, targets)
+        n = 0
+        for q, obs in out.items():
+            for ob in obs:
+                k = ob.name.split(":")[0]
+                if kinds and k not in kinds:
+                    continue
+                label = f"{q}/{ob.name}"
+                if label in spec.get("accepted", {}):
+                    continue  # site reviewed by hand: listed as an assumption in the evidence
+                if label in spec.get("known", {}):
+                    if not ob.ok:
+                        res.covers["known:" + spec["known"][label]] = True
+                    continue
+                v = res.v(label)
+                v.backend = "static frame/kind/order analysis on the AST"
+                v.add("unsat" if ob.ok else "sat", 0.0, None, ob.detail)
+                n += 1
+        res.paths = n
+        res.covers["return"] = len(out) > 0
+        res.calls = sorted(out)
+        res.files = repo.hashes()
     except Exception as ex:
         res.error = "crash: " + "".join(traceback.format_exception(type(ex), ex, ex.__traceback__))[-3000:]
     res.seconds = time.time() - t0
